@@ -72,3 +72,15 @@ ENGINE_EXC_NAMES = ('EngineError', 'Unsupported', 'Infeasible', 'PathLimit', 'Pa
 
 def is_engine_exc(e):
     return any(c.__name__ in ENGINE_EXC_NAMES for c in type(e).__mro__)
+
+
+def raised_in_repo(e, root):
+    """True iff the traceback of e passes through a source file of the library under verification"""
+    import os
+    root = os.path.realpath(root) + os.sep
+    tb = e.__traceback__
+    while tb is not None:
+        if os.path.realpath(tb.tb_frame.f_code.co_filename).startswith(root):
+            return True
+        tb = tb.tb_next
+    return False
